@@ -26,7 +26,7 @@
 (***************************************************************************)
 EXTENDS Privacy, Json, IOUtils
 
-CONSTANTS Kind,        \* "match" | "rules"
+CONSTANTS Kind,        \* "match" | "rules" | "sets"
           Exhaustive,  \* TRUE: rows must be exactly the enumerated space
           PatAlpha, NameAlpha,  \* Kind = "match": alphabets (sets of one-character strings) ...
           PatK, NameK, \* ... and length bounds of the exhaustive space
@@ -68,6 +68,31 @@ MatchReport(i) ==
       real_is_impl |-> r.e = ierr /\ real = impl,
       impl_is_ref  |-> amb \/ (~ierr /\ impl = ref)]
 
+\* Kind = "sets": [seq] and [!seq] over one-character names.  rows: [b |-> seq, pos |-> names [seq] accepted,
+\* neg |-> names [!seq] accepted, epos / eneg |-> raised].
+\* "[seq] / [!seq] for one character in or not in a set": whatever seq means, [!seq] accepts exactly the characters
+\* [seq] refuses.  For a seq with an inner '-' the manual leaves two readings (three literals / a range as in fnmatch
+\* and re): the observed pair must be ONE of them, consistently (a reversed range may also be refused by both).
+SetsReport(i) ==
+  LET r    == Rows[i]
+      all  == 1..Len(Names)
+      well == /\ Tok(<<"[">> \o r.b \o <<"]">>, 1) = <<[t |-> "set", neg |-> FALSE, b |-> r.b]>>
+              /\ Tok(<<"[", "!">> \o r.b \o <<"]">>, 1) = <<[t |-> "set", neg |-> TRUE, b |-> r.b]>>
+              /\ \A k \in all : Len(Names[k]) = 1
+      amb  == \E x \in 2..(Len(r.b) - 1) : r.b[x] = "-"
+      lit  == {k \in all : Names[k][1] \in Members(r.b)}
+      bad  == ReBad(r.b, 1)
+      rng  == IF bad THEN {} ELSE {k \in all : ReHas(r.b, 1, Names[k][1])}
+      pos  == IdxSet(r.pos)
+      neg  == IdxSet(r.neg)
+      asLit == ~r.epos /\ ~r.eneg /\ pos = lit /\ neg = all \ lit
+      asRng == IF bad THEN r.epos /\ r.eneg ELSE ~r.epos /\ ~r.eneg /\ pos = rng /\ neg = all \ rng
+  IN [i |-> i, b |-> r.b, amb |-> amb, well |-> well, lit |-> lit, rng |-> rng, pos |-> pos, neg |-> neg,
+      epos |-> r.epos, eneg |-> r.eneg,
+      real_is_ref  |-> well /\ (asLit \/ (amb /\ asRng)),
+      real_is_impl |-> asRng,                                   \* translate() + re: the range reading
+      impl_is_ref  |-> amb \/ (~bad /\ rng = lit)]
+
 \* Kind = "rules"
 RulesReport(i) ==
   LET r    == Rows[i]
@@ -80,7 +105,7 @@ RulesReport(i) ==
       real_is_impl |-> r.res = impl,
       impl_is_ref  |-> impl = ref]
 
-Report(i) == IF Kind = "match" THEN MatchReport(i) ELSE RulesReport(i)
+Report(i) == IF Kind = "match" THEN MatchReport(i) ELSE IF Kind = "sets" THEN SetsReport(i) ELSE RulesReport(i)
 
 \* CONSTRAINT: the export path.  Every disagreeing row is printed; the harness decides (verdict discipline).
 Emit == row > 0 =>
@@ -101,6 +126,7 @@ Complete ==
        THEN /\ {Rows[i].p : i \in 1..N} = SeqsUpTo(PatAlpha, PatK)
             /\ N = Cardinality(SeqsUpTo(PatAlpha, PatK))
             /\ {Names[k] : k \in 1..Len(Names)} = SeqsUpTo(NameAlpha, NameK)
+       ELSE IF Kind = "sets" THEN TRUE
        ELSE LET U == {File.universe[k] : k \in 1..Len(File.universe)}
                 space == RuleListsUpTo(U, File.maxrules) IN
             /\ {Rows[i].rules : i \in 1..N} = space
